@@ -251,6 +251,12 @@ func main() {
 	droppedFiles := map[string]bool{}
 	for retry := 0; err != nil && retry < 6; retry++ {
 		dropped := false
+		if msg := err.Error(); os.Getenv("VERIF_LOADERR") != "" {
+			if len(msg) > 1500 {
+				msg = msg[:1500]
+			}
+			fmt.Println("NOTE load error:", msg)
+		}
 		for name := range overlay {
 			base := filepath.Base(name)
 			if strings.HasPrefix(base, "zz_verif_c") && strings.Contains(err.Error(), base) && !droppedFiles[name] {
